@@ -256,9 +256,9 @@ func glue(dir string) (_ []Route, hasServer, stubErrors bool, _ error) {
 	var sb strings.Builder
 	sb.WriteString("// Written by the verification framework's corpus driver; not generated by ogen.\n\npackage api\n\nimport (\n\t\"context\"\n\t\"net/http\"\n)\n\nvar _ context.Context\n\n")
 	if hasSec {
-		sb.WriteString("// simSec accepts every credential and shows it to the harness.\ntype simSec struct{ saw func(ctx context.Context, cred any) }\n\n")
+		sb.WriteString("// simSec accepts every credential and shows it to the harness.\ntype simSec struct {\n\tsaw func(ctx context.Context, cred any) error\n}\n\n")
 		for i, m := range secMethods {
-			fmt.Fprintf(&sb, "func (s simSec) %s {\n\tif s.saw != nil {\n\t\ts.saw(ctx, %s)\n\t}\n\treturn ctx, nil\n}\n\n", m, secArgs[i])
+			fmt.Fprintf(&sb, "func (s simSec) %s {\n\tif s.saw != nil {\n\t\tif err := s.saw(ctx, %s); err != nil {\n\t\t\treturn ctx, err\n\t\t}\n\t}\n\treturn ctx, nil\n}\n\n", m, secArgs[i])
 		}
 		sb.WriteString("// SimNewServer builds the server with the stub handler, an accept-all security handler and one middleware.\nfunc SimNewServer(eh func(context.Context, http.ResponseWriter, *http.Request, error), mw ...Middleware) (http.Handler, error) {\n\treturn NewServer(UnimplementedHandler{}, simSec{}, WithMiddleware(mw...), WithErrorHandler(eh))\n}\n")
 	} else {
